@@ -23,6 +23,8 @@ Public interface (same semantics as passlib.crypto.des):
     shrink_des_key(key8) -> key7      (bytes or int)
 extras:
     des_trace(key, input, salt=0, rounds=1) -> (int, [(iteration, round, box, index6)])
+    block_for_round_state(key, round_index, left, right, salt=0) -> int   (rounds run backwards)
+    right_half_for_sbox_inputs(key, round_index, {box: value}, salt=0, fill=0) -> (R, boxes satisfied)
     crypt_des(password: bytes, salt2: str) -> str        traditional crypt(3)
     crypt_bsdi(password: bytes, rounds: int, salt4: str) -> str   BSDi "_" extended crypt
     VECTORS: known-answer vectors (key, plaintext, ciphertext) as hex strings
@@ -264,6 +266,58 @@ def des_trace(key, input, salt=0, rounds=1):
     trace = []
     out = _encrypt(key, input, salt, rounds, trace)
     return out, trace
+
+
+def effective_e_table(salt):
+    """E followed by the crypt(3) exchanges: 48 source bit numbers (1-based) of R"""
+    table = list(E)
+    for i in range(24):
+        if (salt >> i) & 1:
+            table[i], table[i + 24] = table[i + 24], table[i]
+    return table
+
+
+def block_for_round_state(key, round_index, left, right, salt=0):
+    """the input block for which (first iteration) the halves entering round `round_index`
+    (0-based; L_n R_n of the standard with n = round_index) are (left, right): the Feistel
+    rounds are run backwards from that state, then IP is undone."""
+    subkeys = key_schedule(int_to_bits(key, 64))
+    l, r = int_to_bits(left, 32), int_to_bits(right, 32)
+    for n in range(round_index - 1, -1, -1):
+        # forward step n:  L' = R ; R' = L xor f(R, K)   =>   R = L' ; L = R' xor f(L', K)
+        prev_r = l
+        prev_l = xor_bits(r, cipher_function(prev_r, subkeys[n], salt))
+        l, r = prev_l, prev_r
+    return bits_to_int(permute(l + r, IP_INV))
+
+
+def right_half_for_sbox_inputs(key, round_index, wanted, salt=0, fill=0):
+    """choose R entering round `round_index` so that S-box b receives the 6-bit value wanted[b]
+    for as many boxes of `wanted` (dict box -> value) as the shared E bits allow.
+    -> (right_half:int, satisfied: list of boxes).  Unconstrained bits come from `fill`."""
+    subkey = key_schedule(int_to_bits(key, 64))[round_index]
+    table = effective_e_table(salt)
+    chosen = {}
+    done = []
+    for box in sorted(wanted):
+        need = int_to_bits(wanted[box], 6)
+        trial = dict(chosen)
+        ok = True
+        for i in range(6):
+            pos = 6 * box + i
+            src = table[pos]
+            bit = need[i] ^ subkey[pos]
+            if trial.get(src, bit) != bit:
+                ok = False
+                break
+            trial[src] = bit
+        if ok:
+            chosen = trial
+            done.append(box)
+    bits = int_to_bits(fill & 0xFFFFFFFF, 32)
+    for src, bit in chosen.items():
+        bits[src - 1] = bit
+    return bits_to_int(bits), done
 
 
 # --------------------------------------------------------------------------
